@@ -92,3 +92,25 @@ func LookupHost(host string) ([]string, error) {
 	}
 	return net.LookupHost(host)
 }
+
+// YieldFn is called at a named scheduling point by the goroutine that reached it
+// and returns when that goroutine may continue; nil = no scheduling point.
+type YieldFn func(site string)
+
+var yieldFn atomic.Pointer[YieldFn]
+
+// SetYield installs (nil: removes) the scheduler of the Yield points.
+func SetYield(f YieldFn) {
+	if f == nil {
+		yieldFn.Store(nil)
+		return
+	}
+	yieldFn.Store(&f)
+}
+
+// Yield marks a scheduling point.
+func Yield(site string) {
+	if fp := yieldFn.Load(); fp != nil {
+		(*fp)(site)
+	}
+}
